@@ -45,7 +45,8 @@ CHECKS = {
              "bytes, late content), replayed transition by transition on the real protocol; random cut sets beyond the model "
              "validated by TLC."
              " C07 is relational: every non-conforming execution is re-run with the same bytes at the same instants under other segmentations and must end the same; request lines are IRIs half of the time so that cut points fall inside multi-byte characters and escapes."
-             " titan_segmentation: the real FileUploadHandler (limit, tokens, media types) behind an allowing / refusing chain, six segmentations per upload, same wire bytes and same tree; TlsPump.RequestAnswered (a request sharing a read with the client's close_notify is answered) is checked in the design model and reported as drift on the code: it is not claimed for C07, because a client that closes with its request has disconnected first.",
+             " titan_segmentation: the real FileUploadHandler (limit, tokens, media types) behind an allowing / refusing chain, six segmentations per upload, same wire bytes and same tree; TlsPump.RequestAnswered (a request sharing a read with the client's close_notify is answered) is checked in the design model and reported as drift on the code: it is not claimed for C07, because a client that closes with its request has disconnected first."
+             " live.c07_live: real sockets, both TLS backends - bytes after the request line sent in a LATER read while a large response is on its way (known finding C07-late-bytes-large-response: printed as KNOWN-FINDING; small responses and the no-late-bytes control must be complete).",
         note="Trusted: as C01. The ciphertext level (TCP reads cutting TLS records, application data coalesced with the end of "
              "the handshake) is decided by the TlsPump replay, run in the same check with PlainInOrder / PlainComplete."),
     "C15": dict(
@@ -121,7 +122,8 @@ CHECKS = {
              "bytes after the first CRLF; random grammar streams (every codec label Python knows plus unknown ones) are judged by "
              "the byte-level oracle."
              " Random classified streams (400 / 2 000) and pairs of overlapping calls on one client object (150 / 600) are recorded and validated by TLC against ClientConnTrace."
-             " The server may talk before the request has left: Rx / PeerEnds are enabled before Verify in ClientConn, and the harness holds create_connection until the Verify action.",
+             " The server may talk before the request has left: Rx / PeerEnds are enabled before Verify in ClientConn, and the harness holds create_connection until the Verify action."
+             " decode_cost: the Deliver step is charged its processor time - 256 KiB bodies under every charset label and alias Python knows, get and upload; a step that would hold the loop longer than 10 s at the 10 MiB cap is not prompt (virtual time cannot see a decoder that blocks the loop).",
         note="Trusted: TLC; fake transport contract; the byte-level oracle of checks/clientconn.py (expected_body)."),
     "C11": dict(
         engine="ClientConn", design="8 C11, 5.6, Appendix D",
@@ -157,7 +159,8 @@ CHECKS = {
              "every statement boundary (injected sqlite3/OSError; real process kill by fork + _exit), the file reopened, and "
              "the outcome judged by TLC against After(before, op); export->import round trips for generated host names."
              " A third of the operations go through the `nauyaca tofu` command line (typer runner, $HOME store) under the same statement-boundary faults and process kills; revoke-by-host-name is an operation of its own; the two host names differ only where SQL LIKE has a wildcard."
-             " Operation revokeNoPort (port 0 / None, library and CLI) names nothing; round trips carry first-seen values ahead of the local clock and in other notations; the statement-boundary shim follows whatever alias security/tofu.py imports sqlite3 under, and the check fails as machinery when no boundary is observed.",
+             " Operation revokeNoPort (port 0 / None, library and CLI) names nothing; round trips carry first-seen values ahead of the local clock and in other notations; the statement-boundary shim follows whatever alias security/tofu.py imports sqlite3 under, and the check fails as machinery when no boundary is observed."
+             " The three abstract hosts are realised under five spellings in rotation (names differing only after a NUL, only at a LIKE wildcard, only in a non-ASCII letter, only in a trailing dot): 'for any host names'.",
         note="Trusted: TLC; SQLite's durability; boundaries = Cursor.execute / Connection.commit entries.",
         technique="TLA+ spec + TLC model checking; fault enumeration at every SQL statement boundary on the real store, judged by a TLC observation spec"),
     "C16": dict(
@@ -171,6 +174,7 @@ CHECKS = {
              "judged by its own reference walk; the pin check of every hop under rotations and across calls "
              "is decided by the Tofu history replay run with C16's formulas."
              " Every URL has one spelling per run (canonical or not: explicit default port, empty path, empty query, upper-case host), used by the caller and every redirecting server."
+             " ClientCli.ShownUnchanged: what `nauyaca get --no-redirects` shows of the 3x it got back (targets with square brackets that read as console markup or as a stray closing tag) - the answer reaches the user unchanged."
              " Redirect answers use statuses 30, 31, 32, 35, 39; ClientCli.tla: --max-redirects / --no-redirects reach the client as given; random graphs over 7 URLs are judged by TLC with RedirectObs.tla's reference walk."
              " Redirect targets spelling the scheme GEMINI:// / Gemini:// are gemini redirects.",
         note="Trusted: TLC; scripted peers; URLs are opaque strings in the model."),
@@ -322,7 +326,7 @@ def main():
         "checks": checks,
         "notes": "See DESIGN.md. fix: commits in /repo are listed in known_findings.json (fixed entries); findings recorded rather than repaired are "
                  "listed there under findings and printed as KNOWN-FINDING lines by the check that reproduces them (C19-limit-empty-path, "
-                 "C06-stdlib-shutdown-timeout). Extension modules beyond the listed properties: ./check ext reload|assembly|certcli|titanwire.",
+                 "C06-stdlib-shutdown-timeout, C07-late-bytes-large-response). Extension modules beyond the listed properties: ./check ext reload|assembly|certcli|titanwire.",
         "not_applicable": na,
     }
     with open(os.path.join(HERE, "MANIFEST.json"), "w") as f:
